@@ -6,6 +6,7 @@ import (
 	"fmt"
 	"runtime"
 	"runtime/metrics"
+	"strings"
 	"testing"
 
 	"google.golang.org/protobuf/proto"
@@ -533,6 +534,18 @@ func mutateEncoding(t *rapid.T, b []byte) ([]byte, string) {
 
 // ---- C10: safe-mode decoding never aliases the caller's buffer ----
 
+// oracleC10OptSpelling: the generator's verdict on option spellings (see vgen): enableunsafedecode switched off
+// explicitly must give exactly the code generated without the option.
+func oracleC10OptSpelling() *ev.Failure {
+	loadCorpus()
+	for _, fi := range manifest.Files {
+		if fi.OptSpelling != "" && strings.Contains(fi.OptSpelling, "enableunsafedecode") {
+			return ev.Failf("C10/unsafe-decode-option-spelling/"+fi.Variant, "%s", fi.OptSpelling)
+		}
+	}
+	return nil
+}
+
 func oracleC10(c *BCase) (f *ev.Failure, nontrivial bool) {
 	mt, m := c.dest()
 	fm := m.(fastMsg)
@@ -750,13 +763,20 @@ func TestC08(t *testing.T) {
 }
 
 func TestC10(t *testing.T) {
-	rec := ev.New("C10", ruleValues+"only types generated WITHOUT enableunsafedecode; values rich in variable-length data (string, bytes, repeated bytes, map values, oneof bytes, nested messages, unknown fields); metamorphic oracle: decode, deep-copy snapshot through reflection, overwrite the caller's buffer with another pattern and re-use it for a second decode: the first message must still equal its snapshot; the lazyproto half of the property is checked by the lazy engine's C14 hand-out snapshots; non-trivial = the decoded value holds >= 1 string/bytes/message/map/unknown item; distinct by (type, bytes)")
+	rec := ev.New("C10", ruleValues+"only types generated WITHOUT enableunsafedecode; values rich in variable-length data (string, bytes, repeated bytes, map values, oneof bytes, nested messages, unknown fields); metamorphic oracle: decode, deep-copy snapshot through reflection, overwrite the caller's buffer with another pattern and re-use it for a second decode: the first message must still equal its snapshot; the generator run probes that enableunsafedecode={false,0,f,F,FALSE,False} gives exactly the code generated without the option (and {1,t,T,TRUE,True} the code of =true); the lazyproto clause runs as a second group in the lazy engine; non-trivial = the decoded value holds >= 1 string/bytes/message/map/unknown item; distinct by (type, bytes)")
 	defer rec.Write()
 	useRecorder(rec)
 	defer func() { t.Log(rec.Summary()); fmt.Print(rec.SurveyReport()) }()
 	mine := shardTypes(fmTypes(func(mt *MsgType) bool { return !mt.Info.Unsafe }))
 	if len(mine) == 0 {
 		return
+	}
+	// "unless the user explicitly opted into the unsafe mode": an explicit opt-OUT, in any spelling the option parser
+	// accepts for false, is the default - the generator run probes that on one file per option set (vgen)
+	if shard, _ := ev.Shard(); shard == 0 {
+		rec.Eval(1)
+		rec.Class("explicit-opt-out-spellings-probed")
+		rec.Check(t, "optspelling", map[string]any{}, oracleC10OptSpelling())
 	}
 	ev.Rapid(t, ev.N(40000, 1000000), 10, func(rt *rapid.T) {
 		mt := rapid.SampledFrom(mine).Draw(rt, "type")
